@@ -211,6 +211,7 @@ fn build_cases(tape: &[u8], which: Which, n_inputs_scale: usize) -> Vec<Result<G
     let spec = match which {
         Which::C12 => gen::gen_prec(&mut t),
         Which::C25 if t.chance(90) => gen::gen_prec(&mut t),
+        Which::C14 if t.chance(190) => gen::gen_inline_focus(&mut t),
         Which::C16 => gen::gen_recovery(&mut t),
         _ => gen::gen_full(&mut t, &opts),
     };
